@@ -577,7 +577,7 @@ def main():
                     rep.violation(sig, what, {})
                 elif not any(t[1] == sig for t in to_min):
                     to_min.append((r["idx"], sig, what, plan))
-        for k, (i, sig, what, plan) in enumerate(to_min):
+        for k, (i, sig, what, plan) in enumerate(to_min[:12]):
             case = gen_case(args.seed, i)
             wd = os.path.join(batch, "min%d" % k)
             mcase, mplan = minimise(case, args.seed, plan, sig, wd, budget=60) if k < 4 else (case, plan)
